@@ -480,6 +480,13 @@ def _run(fb, rep, tier):
                 return False
             return rt.strip('()') not in ('nullptr', '0', 'NULL', '__null')
         wr = [(g, n) for (g, n) in writers.get(qn, []) if rebinding(g, n)]
+        # a pointer that no function of the program ever sets to anything but nullptr (apart from copying it) is always null: copying it
+        # verbatim aliases nothing (SPxLPBase<Rational>::lp_scaler - there is no scaler for the rational LP)
+        nonnull = [(g, n) for (g, n) in writers.get(qn, []) if g.mk not in ('copyassign', 'copyctor') and render(n.kids[1]).strip('()') not in ('nullptr', '0', 'NULL', '__null')]
+        inits_nonnull = [1 for g in fb.funcs.values() for fld_, e_, w_ in (g.inits or []) if fld_ == qn and g.mk != 'copyctor' and e_ is not None and render(e_).strip('()') not in ('nullptr', '0', 'NULL', '__null')]
+        if not nonnull and not inits_nonnull and writers.get(qn):
+            rep.ok('R17.6', key, wh, 'always null: every writer of %s outside the copy operations assigns nullptr' % sh)
+            continue
         reb = [(g, n) for (g, n) in wr if g.u == f2.u and n.i > x.i]
         if not reb:
             wfun = {}
@@ -506,6 +513,35 @@ def _run(fb, rep, tier):
                                         reb.append((fb.funcs[m.u], wfun[m.u][1]))
                 if reb:
                     break
+        if not reb:
+            # the copying function is called deep below the root of the copy path (SoPlexBase::operator= -> operator= of a derived scaler ->
+            # SPxScaler::operator=): a re-binding that the ROOT performs after the first call that transitively reaches the copying function
+            # counts (directly, or inside a callee up to depth 2) - e.g. SPxScaler::rebind() called for every scaler at the end of operator=
+            def reaches(h, depth, seen):
+                if h.u == f2.u:
+                    return True
+                if depth <= 0 or h.u in seen:
+                    return False
+                seen.add(h.u)
+                return any(reaches(h2, depth - 1, seen) for c2 in h.nodes if c2.is_call() and c2.u for h2 in fb.resolve(c2) if h2.name.startswith('soplex::'))
+            firsts = [c for c in opeq.nodes if c.is_call() and c.u and any(reaches(h, 4, set()) for h in fb.resolve(c) if h.name.startswith('soplex::'))]
+            if firsts:
+                first = min(c.i for c in firsts)
+                wfun = {}
+                for g, n in wr:
+                    wfun.setdefault(g.u, (g, n))
+                for n in opeq.nodes:
+                    if n.i <= first or not (n.is_call() and n.u):
+                        continue
+                    for h in fb.resolve(n):
+                        if h.u in wfun and h.mk not in ('copyassign', 'copyctor'):
+                            reb.append((h, wfun[h.u][1]))
+                        else:
+                            for m in h.nodes:
+                                if m.is_call() and m.u in wfun and fb.funcs[m.u].mk not in ('copyassign', 'copyctor'):
+                                    reb.append((fb.funcs[m.u], wfun[m.u][1]))
+                    if reb:
+                        break
         if not reb:
             # installable component (pricer, ratio tester, starter): the pointer is bound by the owner through a load(owner) member that
             # assigns it from its parameter; the copy path installs the cloned components through it (class-level argument)
